@@ -1,6 +1,6 @@
 (* C46: The ordered block buffer yields blocks lowest round first.
    Only statements; each is closed by [exact] of a lemma in Proof/OrderBuffer.v. *)
-From ZC Require Import Model.OrderBuffer Proof.OrderBuffer.
+From ZC Require Import Model.OrderBuffer Proof.OrderBuffer Gen.OrderBufferLocks Model.OrderBufferLocks Proof.OrderBufferConc.
 From Coq Require Import Sorting.Permutation.
 Open Scope Z_scope.
 
@@ -39,6 +39,25 @@ Theorem C46_exact_repeat_ignored :
   ob_add b r d = ObOk b.
 Proof. exact ob_add_repeat_ignored. Qed.
 Print Assumptions C46_exact_repeat_ignored.
+
+(* Concurrent use.  (1) Tie to the source: in the method table regenerated from orderbuffer.go on
+   every run, every method touching the buffer holds the mutex for its whole body (or is an
+   unexported helper called only under the mutex).  (2) Under that discipline every method body is a
+   critical section, so a concurrent execution is an interleaving of whole operations; every
+   interleaving of the threads' operation lists is an operation history, for which the theorems
+   above hold. *)
+Theorem C46_lock_discipline : ob_disciplined ob_methods = true /\ ob_has_api ob_methods = true.
+Proof. exact ob_table_disciplined. Qed.
+Print Assumptions C46_lock_discipline.
+
+Theorem C46_concurrent_use :
+  forall max threads ops, interleave threads ops ->
+    let b := fst (ob_run (ob_new max) ops) in
+    ob_sorted (ob_items b) /\ (length (ob_items b) <= max)%nat /\
+    ~ In OutFuel (snd (ob_run (ob_new max) ops)) /\
+    (forall t, In t threads -> forall o, In o t -> In o ops).
+Proof. exact ob_concurrent_use. Qed.
+Print Assumptions C46_concurrent_use.
 
 (* Non-vacuity: a concrete reachable buffer exercising insertion, truncation and a repeat. *)
 Example C46_example :
